@@ -7,6 +7,7 @@
 
 pub mod scalars;
 pub mod events;
+pub mod anchors;
 pub mod locs;
 #[cfg(any(feature = "garde", feature = "validator"))]
 pub mod pathmap;
